@@ -29,24 +29,113 @@ def stateAfter (n : Nat) (ops : List Op) : D :=
     | some (d', _) => d'
     | none => d) (init n)
 
+theorem Conn.mono {E E' : List (Nat × Nat)} (h : ∀ e ∈ E, e ∈ E') {x y : Nat} (c : Conn E x y) :
+    Conn E' x y := by
+  induction c with
+  | refl x => exact .refl x
+  | edge he => exact .edge (h _ he)
+  | symm _ ih => exact .symm ih
+  | trans _ _ ih1 ih2 => exact .trans ih1 ih2
+
+theorem Conn_nil (x y : Nat) : Conn [] x y ↔ x = y := by
+  constructor
+  · intro c
+    induction c with
+    | refl x => rfl
+    | edge he => simp at he
+    | symm _ ih => exact ih.symm
+    | trans _ _ ih1 ih2 => exact ih1.trans ih2
+  · rintro rfl; exact .refl x
+
+/-- adding one pair to the list: the new closure in terms of the old one -/
+theorem Conn_add {E E' : List (Nat × Nat)} {a b : Nat} (hE : ∀ e, e ∈ E' ↔ e = (a, b) ∨ e ∈ E) (x y : Nat) :
+    Conn E' x y ↔ Conn E x y ∨ (Conn E x a ∧ Conn E y b) ∨ (Conn E x b ∧ Conn E y a) := by
+  have hm : ∀ {x y}, Conn E x y → Conn E' x y := fun c => Conn.mono (fun e he => (hE e).2 (Or.inr he)) c
+  have hab : Conn E' a b := .edge ((hE _).2 (Or.inl rfl))
+  constructor
+  · intro c
+    induction c with
+    | refl x => exact Or.inl (.refl x)
+    | edge he =>
+      rcases (hE _).1 he with e | e
+      · injection e with e1 e2
+        subst e1; subst e2
+        exact Or.inr (Or.inl ⟨.refl _, .refl _⟩)
+      · exact Or.inl (.edge e)
+    | symm _ ih =>
+      rcases ih with h | ⟨h1, h2⟩ | ⟨h1, h2⟩
+      · exact Or.inl h.symm
+      · exact Or.inr (Or.inr ⟨h2, h1⟩)
+      · exact Or.inr (Or.inl ⟨h2, h1⟩)
+    | trans _ _ ih1 ih2 =>
+      rcases ih1 with h | ⟨h1, h2⟩ | ⟨h1, h2⟩ <;> rcases ih2 with k | ⟨k1, k2⟩ | ⟨k1, k2⟩
+      · exact Or.inl (h.trans k)
+      · exact Or.inr (Or.inl ⟨h.trans k1, k2⟩)
+      · exact Or.inr (Or.inr ⟨h.trans k1, k2⟩)
+      · exact Or.inr (Or.inl ⟨h1, k.symm.trans h2⟩)
+      · exact Or.inr (Or.inl ⟨h1, k2⟩)
+      · exact Or.inl (h1.trans k2.symm)
+      · exact Or.inr (Or.inr ⟨h1, k.symm.trans h2⟩)
+      · exact Or.inl (h1.trans k2.symm)
+      · exact Or.inr (Or.inr ⟨h1, k2⟩)
+  · rintro (h | ⟨h1, h2⟩ | ⟨h1, h2⟩)
+    · exact hm h
+    · exact (hm h1).trans (hab.trans (hm h2).symm)
+    · exact (hm h1).trans (hab.symm.trans (hm h2).symm)
+
+/-- one valid `union` step of the represented relation -/
+theorem union_conn {d : D} {n : Nat} {E : List (Nat × Nat)} (h : DsuInv d n (Conn E)) (a b : Nat)
+    (ha : a < n) (hb : b < n) : DsuInv (union d a b) n (Conn (E ++ [(a, b)])) := by
+  refine (union_inv h a b ha hb).congr (fun x y _ _ => ?_)
+  exact (Conn_add (by intro e; simp [or_comm]) x y).symm
+
+theorem foldl_inv (n : Nat) : ∀ (ops : List Op) (d : D) (E : List (Nat × Nat)),
+    (∀ op ∈ ops, ValidOp n op) → DsuInv d n (Conn E) →
+    DsuInv (ops.foldl (fun d op => match stepOp d op with
+      | some (d', _) => d'
+      | none => d) d) n (Conn (E ++ unions ops)) := by
+  intro ops
+  induction ops with
+  | nil => intro d E _ h; simpa [unions] using h
+  | cons op t ih =>
+    intro d E hv h
+    have hvt : ∀ op ∈ t, ValidOp n op := fun o ho => hv o (List.mem_cons_of_mem _ ho)
+    have hop := hv op List.mem_cons_self
+    cases op with
+    | union a b =>
+      obtain ⟨ha, hb⟩ := hop
+      have := ih (union d a b) (E ++ [(a, b)]) hvt (union_conn h a b ha hb)
+      simpa [unions, stepOp, valid, h.hn, ha, hb] using this
+    | same a b =>
+      obtain ⟨ha, hb⟩ := hop
+      have := ih (same d a b).2 E hvt (same_inv h a b)
+      simpa [unions, stepOp, valid, h.hn, ha, hb] using this
+
 /-- **The disjoint-set structure tells the truth for every history**: after any sequence of unions and
 queries on `n` elements, `is_same_set a b` answers `True` exactly when some sequence of the unions
 performed so far connects `a` and `b`. -/
 theorem dsu_refines_partition (n : Nat) (ops : List Op) (hv : ∀ op ∈ ops, ValidOp n op) (a b : Nat)
     (ha : a < n) (hb : b < n) :
     (same (stateAfter n ops) a b).1 = true ↔ Conn (unions ops) a b := by
-  sorry
+  have h0 : DsuInv (init n) n (Conn []) :=
+    (init_inv n).congr (fun x y _ _ => (Conn_nil x y).symm)
+  have h := foldl_inv n ops (init n) [] hv h0
+  rw [List.nil_append] at h
+  exact same_fst h a b ha hb
 
 /-- the answers the driver prints are exactly these queries, in order: running a script is running
 `stepOp` from left to right -/
 theorem runOps_cons (d : D) (op : Op) (ops : List Op) (d' : D) (ans : Option Bool) (h : stepOp d op = some (d', ans)) :
     runOps d (op :: ops) = (match op with | .same .. => [ans] | _ => []) ++ runOps d' ops := by
-  sorry
+  cases op <;> simp [runOps, h]
 
 /-- invalid nodes are rejected (AssertionError / IndexError), never answered -/
 theorem invalid_rejected (d : D) (a b : Nat) (h : ¬ (a < d.n ∧ b < d.n)) :
     stepOp d (.union a b) = none ∧ stepOp d (.same a b) = none := by
-  sorry
+  have : (valid d a && valid d b) = false := by
+    simp only [valid, Bool.and_eq_false_iff, decide_eq_false_iff_not]
+    omega
+  simp [stepOp, this]
 
 /-! ## has_cyclic -/
 
@@ -59,6 +148,92 @@ def rowEdges : List Int → List Int → List (Nat × Nat)
 def ValidTable (ids pids : List Int) : Prop :=
   ids.length = pids.length ∧ (∀ i ∈ ids, 0 ≤ i ∧ i < ids.length) ∧ (∀ p ∈ pids, p = -1 ∨ (0 ≤ p ∧ p < ids.length))
 
+theorem hasCyclicLoop_root (d : D) (a b : Int) (as bs : List Int) (hb : b = -1) :
+    hasCyclicLoop d (a :: as) (b :: bs) = hasCyclicLoop d as bs := by
+  simp [hasCyclicLoop, hb]
+
+theorem hasCyclicLoop_step (d : D) (a b : Int) (as bs : List Int) (hb : b ≠ -1)
+    (ha0 : 0 ≤ a) (hb0 : 0 ≤ b) (ha : a.toNat < d.n) (hbn : b.toNat < d.n) :
+    hasCyclicLoop d (a :: as) (b :: bs) =
+      if (same d a.toNat b.toNat).1 then some true
+      else hasCyclicLoop (union (same d a.toNat b.toNat).2 a.toNat b.toNat) as bs := by
+  have e : (decide (a < 0) || decide (b < 0) || !valid d a.toNat || !valid d b.toNat) = false := by
+    simp [valid, ha, hbn]; omega
+  simp only [hasCyclicLoop, hb, if_false, e]
+  simp
+
+theorem hasCyclicLoop_spec (n : Nat) : ∀ (as bs : List Int) (d : D) (E : List (Nat × Nat)),
+    as.length = bs.length →
+    (∀ i ∈ as, 0 ≤ i ∧ i < (n : Int)) → (∀ p ∈ bs, p = -1 ∨ (0 ≤ p ∧ p < (n : Int))) →
+    DsuInv d n (Conn E) →
+    (hasCyclicLoop d as bs = some true ↔
+      ∃ k, ∃ h1 : k < as.length, ∃ h2 : k < bs.length, bs[k] ≠ -1 ∧
+        Conn (E ++ rowEdges (as.take k) (bs.take k)) as[k].toNat bs[k].toNat) ∧
+    (hasCyclicLoop d as bs = some true ∨ hasCyclicLoop d as bs = some false) := by
+  intro as
+  induction as with
+  | nil => intro bs d E _ _ _ _; simp [hasCyclicLoop]
+  | cons a as ih =>
+    intro bs d E hl hi hp h
+    cases bs with
+    | nil => simp at hl
+    | cons b bs =>
+      have hl' : as.length = bs.length := by simpa using hl
+      have hi' : ∀ i ∈ as, 0 ≤ i ∧ i < (n : Int) := fun i hm => hi i (List.mem_cons_of_mem _ hm)
+      have hp' : ∀ p ∈ bs, p = -1 ∨ (0 ≤ p ∧ p < (n : Int)) := fun p hm => hp p (List.mem_cons_of_mem _ hm)
+      by_cases hb1 : b = -1
+      · rw [hasCyclicLoop_root d a b as bs hb1]
+        obtain ⟨ih1, ih2⟩ := ih bs d E hl' hi' hp' h
+        refine ⟨ih1.trans ?_, ih2⟩
+        constructor
+        · rintro ⟨k, h1, h2, hne, c⟩
+          refine ⟨k+1, by simp; omega, by simp; omega, ?_, ?_⟩
+          · simpa using hne
+          · simpa [rowEdges, hb1] using c
+        · rintro ⟨k, h1, h2, hne, c⟩
+          cases k with
+          | zero => simp at hne; exact absurd hb1 hne
+          | succ k =>
+            refine ⟨k, by simpa using h1, by simpa using h2, ?_, ?_⟩
+            · simpa using hne
+            · simpa [rowEdges, hb1] using c
+      · obtain ⟨ha0, han⟩ := hi a List.mem_cons_self
+        have hbb : 0 ≤ b ∧ b < (n : Int) := by
+          rcases hp b List.mem_cons_self with e | e
+          · exact absurd e hb1
+          · exact e
+        obtain ⟨hb0, hbn⟩ := hbb
+        have ha' : a.toNat < n := by omega
+        have hb' : b.toNat < n := by omega
+        rw [hasCyclicLoop_step d a b as bs hb1 ha0 hb0 (by rw [h.hn]; exact ha') (by rw [h.hn]; exact hb')]
+        have hs := same_fst h a.toNat b.toNat ha' hb'
+        by_cases hc : (same d a.toNat b.toNat).1 = true
+        · rw [if_pos hc]
+          refine ⟨?_, Or.inl rfl⟩
+          refine ⟨fun _ => ?_, fun _ => rfl⟩
+          refine ⟨0, by simp, by simp, by simpa using hb1, ?_⟩
+          simpa [rowEdges] using hs.1 hc
+        · rw [if_neg hc]
+          have h2 := union_conn (same_inv h a.toNat b.toNat) a.toNat b.toNat ha' hb'
+          obtain ⟨ih1, ih2⟩ := ih bs _ _ hl' hi' hp' h2
+          refine ⟨ih1.trans ?_, ih2⟩
+          constructor
+          · rintro ⟨k, h1, h2, hne, c⟩
+            refine ⟨k+1, by simp; omega, by simp; omega, ?_, ?_⟩
+            · simpa using hne
+            · simpa [rowEdges, hb1] using c
+          · rintro ⟨k, h1, h2, hne, c⟩
+            cases k with
+            | zero =>
+              exfalso
+              apply hc
+              apply hs.2
+              simpa [rowEdges] using c
+            | succ k =>
+              refine ⟨k, by simpa using h1, by simpa using h2, ?_, ?_⟩
+              · simpa using hne
+              · simpa [rowEdges, hb1] using c
+
 /-- **`has_cyclic` is true exactly when some row joins two nodes that the earlier rows already connect**
 (i.e. the undirected graph of the table has a cycle; in a parent table, where every node has at most one
 outgoing edge, that is a directed cycle). -/
@@ -67,28 +242,62 @@ theorem hasCyclic_spec (ids pids : List Int) (hv : ValidTable ids pids) :
       ∃ k, ∃ h1 : k < ids.length, ∃ h2 : k < pids.length, pids[k] ≠ -1 ∧
         Conn (rowEdges (ids.take k) (pids.take k)) ids[k].toNat pids[k].toNat) ∧
     (hasCyclic ids pids = some true ∨ hasCyclic ids pids = some false) := by
-  sorry
+  obtain ⟨hl, hi, hp⟩ := hv
+  have h0 : DsuInv (init ids.length) ids.length (Conn []) :=
+    (init_inv _).congr (fun x y _ _ => (Conn_nil x y).symm)
+  have := hasCyclicLoop_spec ids.length ids pids (init ids.length) [] hl hi hp h0
+  simpa [hasCyclic] using this
 
 /-! ## is_bifurcate, is_sorted -/
+
+theorem tableKids_not_mem : ∀ (ids pids : List Int) (k : Int), k ∉ pids → tableKids ids pids k = []
+  | [], _, _, _ => by simp [tableKids]
+  | _ :: _, [], _, _ => by simp [tableKids]
+  | i :: is, p :: ps, k, h => by
+    have h1 : p ≠ k := fun e => h (e ▸ List.mem_cons_self)
+    have h2 : k ∉ ps := fun e => h (List.mem_cons_of_mem _ e)
+    simp [tableKids, h1, tableKids_not_mem is ps k h2]
 
 /-- **`is_bifurcate` is true exactly when no node — other than the roots when they are exempt — has more
 than two children**, on every table -/
 theorem isBifurcate_correct (ids pids : List Int) (excl : Bool) :
     isBifurcate ids pids excl = true ↔
       ∀ k : Int, k ≠ -1 → ¬ (excl = true ∧ k ∈ tableKids ids pids (-1)) → (tableKids ids pids k).length ≤ 2 := by
-  sorry
+  simp only [isBifurcate, List.all_eq_true, Bool.or_eq_true, Bool.and_eq_true, decide_eq_true_eq,
+    List.contains_iff_mem]
+  constructor
+  · intro h k hk hr
+    by_cases hm : k ∈ pids
+    · rcases h k hm with (e | e) | e
+      · exact absurd e hk
+      · exact absurd e hr
+      · exact e
+    · rw [tableKids_not_mem ids pids k hm]; simp
+  · intro h k _
+    by_cases hk : k = -1
+    · exact Or.inl (Or.inl hk)
+    · by_cases hr : excl = true ∧ k ∈ tableKids ids pids (-1)
+      · exact Or.inl (Or.inr hr)
+      · exact Or.inr (h k hk hr)
 
 /-! ## get_dsu / is_single_root -/
 
 /-- when the `while` loop of `get_dsu` stops, every label is a fixed point of the pointer array (so
 labels name component representatives), and one more pass changes nothing -/
 theorem jumpPass_stop (dsu : List Nat) (hb : ∀ x ∈ dsu, x < dsu.length) (h : (jumpPass dsu).2 = true) :
-    (jumpPass dsu).1 = dsu ∧ ∀ i (hi : i < dsu.length), dsu.getD (dsu[i]) 0 = dsu[i] := by
-  sorry
+    (jumpPass dsu).1 = dsu ∧ ∀ i (hi : i < dsu.length), dsu.getD (dsu[i]) 0 = dsu[i] :=
+  jumpPass_true dsu h
 
 theorem getDsu_fixpoint (ids pids : List Int) (l : List Nat) (hl : ids.length = pids.length) (h : getDsu ids pids = some l) :
     l.length = ids.length ∧ ∀ i (hi : i < l.length), l.getD (l[i]) 0 = l[i] := by
-  sorry
+  unfold getDsu at h
+  cases h0 : dsuInit ids pids with
+  | none => simp [h0] at h
+  | some l0 =>
+    rw [h0] at h
+    obtain ⟨e, hfix⟩ := jumpLoop_spec _ l0 l h
+    have := dsuInit_length ids pids l0 h0
+    exact ⟨by omega, hfix⟩
 
 /-- root of row `i` in a sorted forest table (`ids = 0..n-1`, every parent smaller than its child) -/
 def rootOfSorted (pids : List Int) : Nat → Nat → Nat
@@ -97,6 +306,60 @@ def rootOfSorted (pids : List Int) : Nat → Nat → Nat
     | -1 => i
     | p => rootOfSorted pids f p.toNat
 
+theorem rootOfSorted_succ (pids : List Int) (f i : Nat) :
+    rootOfSorted pids (f+1) i =
+      if pids.getD i (-1) = -1 then i else rootOfSorted pids f (pids.getD i (-1)).toNat := by
+  simp only [rootOfSorted]
+  split
+  · rename_i h; rw [if_pos h]
+  · rename_i h; rw [if_neg]; intro e; exact h e
+
+/-- on a sorted table: the root is above, is a root, and does not depend on the fuel -/
+theorem rootOfSorted_props (pids : List Int)
+    (hP : ∀ k, k < pids.length → pids.getD k (-1) = -1 ∨ (0 ≤ pids.getD k (-1) ∧ pids.getD k (-1) < (k : Int))) :
+    ∀ (f i : Nat), i < f → i < pids.length →
+      rootOfSorted pids f i ≤ i ∧ pids.getD (rootOfSorted pids f i) (-1) = -1 ∧
+      ∀ g, i < g → rootOfSorted pids g i = rootOfSorted pids f i := by
+  intro f
+  induction f with
+  | zero => intro i h; omega
+  | succ f ih =>
+    intro i hf hn
+    rw [rootOfSorted_succ]
+    by_cases hroot : pids.getD i (-1) = -1
+    · rw [if_pos hroot]
+      refine ⟨Nat.le_refl _, hroot, ?_⟩
+      intro g hg
+      cases g with
+      | zero => omega
+      | succ g => rw [rootOfSorted_succ, if_pos hroot]
+    · rw [if_neg hroot]
+      rcases hP i hn with e | ⟨h0, h1⟩
+      · exact absurd e hroot
+      · obtain ⟨a1, a2, a3⟩ := ih (pids.getD i (-1)).toNat (by omega) (by omega)
+        refine ⟨by omega, a2, ?_⟩
+        intro g hg
+        cases g with
+        | zero => omega
+        | succ g => rw [rootOfSorted_succ, if_neg hroot]; exact a3 g (by omega)
+
+theorem rootOfSorted_step (pids : List Int)
+    (hP : ∀ k, k < pids.length → pids.getD k (-1) = -1 ∨ (0 ≤ pids.getD k (-1) ∧ pids.getD k (-1) < (k : Int))) :
+    ∀ j, j < pids.length → rootOfSorted pids pids.length j =
+      if pids.getD j (-1) = -1 then j else rootOfSorted pids pids.length (pids.getD j (-1)).toNat := by
+  intro j hj
+  cases hn : pids.length with
+  | zero => omega
+  | succ n =>
+    rw [rootOfSorted_succ]
+    by_cases hroot : pids.getD j (-1) = -1
+    · rw [if_pos hroot, if_pos hroot]
+    · rw [if_neg hroot, if_neg hroot]
+      rcases hP j hj with e | ⟨h0, h1⟩
+      · exact absurd e hroot
+      · exact (rootOfSorted_props pids hP (n+1) (pids.getD j (-1)).toNat (by omega) (by omega)).2.2 n
+          (by omega)
+
 /-- **on a sorted forest the labelling is "root of my tree"**, so `is_single_root` is true exactly when
 there is exactly one root (partial: sorted tables; the general forest / cyclic case is covered by the
 exhaustive n ≤ 5 correspondence and the oracle only) -/
@@ -104,9 +367,110 @@ theorem getDsu_sorted_forest_partial (pids : List Int)
     (hs : ∀ k (h : k < pids.length), pids[k] = -1 ∨ (0 ≤ pids[k] ∧ pids[k] < (k : Int))) :
     getDsu ((List.range pids.length).map Int.ofNat) pids
       = some ((List.range pids.length).map (rootOfSorted pids pids.length)) := by
-  sorry
+  -- the parent column as a total function
+  have hP : ∀ k, k < pids.length → pids.getD k (-1) = -1 ∨ (0 ≤ pids.getD k (-1) ∧ pids.getD k (-1) < (k : Int)) := by
+    intro k hk
+    have : pids.getD k (-1) = pids[k] := by simp [List.getD_eq_getElem?_getD, hk]
+    rw [this]; exact hs k hk
+  have hR := rootOfSorted_step pids hP
+  have hRle := fun j hj => (rootOfSorted_props pids hP pids.length j hj hj).1
+  have hRroot := fun j hj => (rootOfSorted_props pids hP pids.length j hj hj).2.1
+  -- the initial pointer array
+  have hinit : dsuInit ((List.range pids.length).map Int.ofNat) pids =
+      some ((List.zip ((List.range pids.length).map Int.ofNat) pids).map
+        (fun ip => (if ip.2 = -1 then ip.1 else ip.2).toNat)) := by
+    unfold dsuInit
+    apply mapM_option_eq_some
+    intro ip hip
+    obtain ⟨k, hk, e⟩ := List.getElem_of_mem hip
+    have hk' : k < pids.length := by simp at hk; exact hk
+    simp only [List.getElem_zip, List.getElem_map, List.getElem_range] at e
+    subst e
+    simp only []
+    by_cases hroot : pids[k] = -1
+    · rw [if_pos hroot]
+      exact idxOf?_range _ k hk'
+    · rw [if_neg hroot]
+      rcases hs k hk' with e | ⟨h0, h1⟩
+      · exact absurd e hroot
+      · have := idxOf?_range pids.length pids[k].toNat (by omega)
+        rw [Int.toNat_of_nonneg h0] at this
+        exact this
+  generalize hl0 : (List.zip ((List.range pids.length).map Int.ofNat) pids).map
+        (fun ip => (if ip.2 = -1 then ip.1 else ip.2).toNat) = l0 at hinit
+  have htab0 : Tab l0 pids.length (fun j => if pids.getD j (-1) = -1 then j else (pids.getD j (-1)).toNat) := by
+    subst hl0
+    refine ⟨by simp, ?_⟩
+    intro j hj
+    simp only [List.getD_eq_getElem?_getD]
+    rw [List.getElem?_eq_getElem (by simpa using hj), List.getElem?_eq_getElem hj]
+    simp only [List.getElem_map, List.getElem_zip, List.getElem_range, Option.getD_some]
+    split <;> rfl
+  -- the first pass
+  have hpass := jumpFold_range_tab pids.length l0
+    (fun i j => if j < i then rootOfSorted pids pids.length j
+      else (if pids.getD j (-1) = -1 then j else (pids.getD j (-1)).toNat))
+    (htab0.congr (fun j _ => by simp))
+    (by
+      intro i hi
+      have hii : (if i < i then rootOfSorted pids pids.length i
+          else (if pids.getD i (-1) = -1 then i else (pids.getD i (-1)).toNat)) =
+          (if pids.getD i (-1) = -1 then i else (pids.getD i (-1)).toNat) := by simp
+      rw [hii]
+      constructor
+      · split
+        · exact hi
+        · rcases hP i hi with e | ⟨h0, h1⟩
+          · rename_i hne; exact absurd e hne
+          · omega
+      · intro j hj
+        by_cases hji : j = i
+        · subst hji
+          rw [updN_same, if_pos (Nat.lt_succ_self j), hR j hj]
+          by_cases hroot : pids.getD j (-1) = -1
+          · rw [if_pos hroot, if_neg (Nat.lt_irrefl j), if_pos hroot, if_pos hroot]
+          · rw [if_neg hroot]
+            rcases hP j hj with e | ⟨h0, h1⟩
+            · exact absurd e hroot
+            · rw [if_pos (show (pids.getD j (-1)).toNat < j by omega), if_neg hroot]
+        · rw [updN_other _ _ _ _ hji]
+          by_cases hlt : j < i
+          · rw [if_pos hlt, if_pos (show j < i + 1 by omega)]
+          · rw [if_neg hlt, if_neg (show ¬ j < i + 1 by omega)])
+    pids.length (Nat.le_refl _)
+  have hlen0 : l0.length = pids.length := htab0.1
+  rw [← hlen0, ← jumpPass_eq, hlen0] at hpass
+  have htab : Tab (jumpPass l0).1 pids.length (rootOfSorted pids pids.length) :=
+    hpass.congr (fun j hj => by simp [hj])
+  have hres : (jumpPass l0).1 = (List.range pids.length).map (rootOfSorted pids pids.length) := by
+    apply List.ext_getElem
+    · simp [htab.1]
+    · intro j h1 h2
+      have := htab.2 j (by rw [← htab.1]; exact h1)
+      simp [List.getD_eq_getElem?_getD, h1] at this
+      simp [this]
+  have hloop := jumpLoop_two (pids.length * pids.length) l0 (by
+    intro i hi
+    rw [htab.1] at hi
+    rw [htab.2 i hi, htab.2 _ (by have := hRle i hi; omega)]
+    have hr := hRroot i hi
+    have hlt : rootOfSorted pids pids.length i < pids.length := by have := hRle i hi; omega
+    rw [hR _ hlt, if_pos hr])
+  unfold getDsu
+  rw [hinit]
+  simp only [List.length_map, List.length_range, Option.bind_some]
+  rw [hloop, hres]
 
 /-! ## root repair -/
+
+theorem firstRootLoc_spec : ∀ (pids : List Int) (h : firstRootLoc pids < pids.length),
+    pids[firstRootLoc pids] = -1
+  | [], h => by simp at h
+  | p :: ps, h => by
+    by_cases e : p = -1
+    · simp [firstRootLoc, e]
+    · simp only [firstRootLoc, if_neg e] at h ⊢
+      simpa using firstRootLoc_spec ps (by simpa using h)
 
 /-- **`fix_roots="somas"`**: exactly the first root stays a root; every other root now hangs from it; every
 row that had a parent keeps it (all original edges); no type is changed -/
@@ -119,7 +483,58 @@ theorem repair_somas (ids pids types : List Int) (ut : Option Int)
     (∀ k (h : k < res.1.length) (h' : k < pids.length), pids[k] ≠ -1 → res.1[k] = pids[k]) ∧
     (∀ k (h : k < res.1.length) (h' : k < pids.length), pids[k] = -1 → k ≠ loc → res.1[k] = ids.getD loc 0) ∧
     (types.length = pids.length → res.2 = types) := by
-  sorry
+  intro res loc
+  have hloc : pids[loc]'hr = -1 := firstRootLoc_spec pids hr
+  have hrid : ids.getD loc 0 ≠ -1 := by
+    have hlt : loc < ids.length := by rw [hl]; exact hr
+    have : ids.getD loc 0 = ids[loc] := by simp [List.getD_eq_getElem?_getD, hlt]
+    rw [this]
+    exact hid _ (List.getElem_mem hlt)
+  have hlen : res.1.length = pids.length := by simp [res, markRootsAsSomas]
+  have hget : ∀ k (h : k < res.1.length) (h' : k < pids.length),
+      res.1[k] = if loc = k then -1 else (if pids[k] ≠ -1 then pids[k] else ids.getD loc 0) := by
+    intro k h h'
+    simp [res, markRootsAsSomas, List.getElem_set, loc]
+  refine ⟨hlen, ?_, ?_, ?_, ?_⟩
+  · intro k h
+    have h' : k < pids.length := hlen ▸ h
+    rw [hget k h h']
+    by_cases e : loc = k
+    · simp [e]
+    · rw [if_neg e]
+      constructor
+      · intro hh
+        split at hh
+        · rename_i hne; exact absurd hh hne
+        · exact absurd hh hrid
+      · intro hh; exact absurd hh.symm e
+  · intro k h h' hne
+    rw [hget k h h']
+    have e : loc ≠ k := by
+      intro e; subst e; exact hne hloc
+    rw [if_neg e, if_pos hne]
+  · intro k h h' he hk
+    rw [hget k h h', if_neg (Ne.symm hk), if_neg (by simpa using he)]
+  · intro ht
+    cases ut with
+    | none => rfl
+    | some t =>
+      show (List.zip _ types).map _ = types
+      have hall : ∀ pt ∈ List.zip (pids.map (fun p => if p ≠ -1 then p else ids.getD (firstRootLoc pids) 0)) types,
+          (if pt.1 ≠ -1 then pt.2 else t) = pt.2 := by
+        intro pt hpt
+        have hm := (List.of_mem_zip (a := pt.1) (b := pt.2) hpt).1
+        rw [List.mem_map] at hm
+        obtain ⟨p, _, hp⟩ := hm
+        have : pt.1 ≠ -1 := by
+          rw [← hp]
+          split
+          · assumption
+          · exact hrid
+        rw [if_pos this]
+      rw [List.map_congr_left hall]
+      apply List.map_snd_zip
+      simp [ht]
 
 /-- **`fix_roots="nearest"`**: rows that had a parent keep it, the first root stays the root, every other
 root is linked to (the id of) some row — partial: that the chosen row lies in another component, hence
@@ -131,7 +546,37 @@ theorem repair_nearest_partial (ids pids : List Int) (dist2 : Nat → Nat → In
     (∀ k (h1 : k < res.length) (h2 : k < pids.length), pids[k] ≠ -1 → res[k] = pids[k]) ∧
     res.getD (firstRootLoc pids) 0 = -1 ∧
     (∀ k (h1 : k < res.length) (h2 : k < pids.length), pids[k] = -1 → k ≠ firstRootLoc pids → res[k] ∈ ids) := by
-  sorry
+  simp only [linkRootsToNearest, Option.map_eq_some_iff] at h
+  obtain ⟨dsu, _, rfl⟩ := h
+  have hpos : 0 < ids.length := by omega
+  have hloc : pids[firstRootLoc pids]'hr = -1 := firstRootLoc_spec pids hr
+  have hmem : ∀ k, k ∈ (List.range pids.length).filter (fun k => pids.getD k 0 = -1) ↔
+      k < pids.length ∧ pids.getD k 0 = -1 := by
+    intro k; simp
+  have hsorted : ((List.range pids.length).filter (fun k => pids.getD k 0 = -1)).Pairwise (· < ·) :=
+    List.Pairwise.filter _ List.pairwise_lt_range
+  have hdrop := mem_drop_one_of_sorted hsorted (m := firstRootLoc pids)
+    ((hmem _).2 ⟨hr, by simp [List.getD_eq_getElem?_getD, hr, hloc]⟩)
+    (fun x hx => firstRootLoc_min pids x ((hmem x).1 hx).2)
+  obtain ⟨l1, l2, l3⟩ := linkLoop_spec ids dist2 hpos
+    (((List.range pids.length).filter (fun k => pids.getD k 0 = -1)).drop 1) pids dsu
+  refine ⟨l1, ?_, ?_, ?_⟩
+  · intro k h1 h2 hne
+    apply l2 k h1 h2
+    intro hk
+    have := ((hmem k).1 ((hdrop k).1 hk).1).2
+    simp [List.getD_eq_getElem?_getD, h2] at this
+    exact hne this
+  · have hlt : firstRootLoc pids < (linkLoop ids dist2
+        (((List.range pids.length).filter (fun k => pids.getD k 0 = -1)).drop 1) pids dsu).length := by
+      rw [l1]; exact hr
+    have e := l2 _ hlt hr (fun hk => ((hdrop _).1 hk).2 rfl)
+    rw [hloc] at e
+    rw [List.getD_eq_getElem?_getD, List.getElem?_eq_getElem hlt, Option.getD_some, e]
+  · intro k h1 h2 he hk
+    apply l3 k h1
+    apply (hdrop k).2
+    exact ⟨(hmem k).2 ⟨h2, by simp [List.getD_eq_getElem?_getD, h2, he]⟩, hk⟩
 
 -- non-vacuity / concrete behaviour (kernel-evaluated)
 example : runOps (init 4) [.union 0 1, .same 0 1, .same 1 2, .union 2 3, .union 1 3, .same 0 2] = [some true, some false, some true] := by
